@@ -5,11 +5,12 @@ import subprocess, sys, json, os, time, argparse, shutil, re
 from concurrent.futures import ThreadPoolExecutor
 ap = argparse.ArgumentParser(); ap.add_argument('-j', type=int, default=3); ap.add_argument('--props'); ap.add_argument('names', nargs='*')
 a = ap.parse_args()
-BD = '/verif/benign'
-ALL = [c['property_id'] for c in json.load(open('/verif/MANIFEST.json'))['checks']]
+ROOT = os.path.dirname(os.path.dirname(os.path.abspath(__file__)))
+BD = os.path.join(ROOT, 'benign')
+ALL = [c['property_id'] for c in json.load(open(os.path.join(os.path.dirname(os.path.dirname(os.path.abspath(__file__))), 'MANIFEST.json')))['checks']]
 # which checks can a change in a file influence at all (units that read the file)
-BY_FILE = [('crates/order_book/src/market.rs', ['C07', 'C10', 'C12', 'C13', 'C14']), ('crates/order_book/', ALL), ('crates/step_sim/src/agents', ['C16', 'C17']),
-           ('crates/step_sim/src/market_env', ['C08', 'C10', 'C11', 'C12', 'C13', 'C14', 'C16', 'C17']), ('crates/step_sim/src/', ['C05', 'C08', 'C10', 'C11', 'C12', 'C13', 'C14', 'C16', 'C17', 'C18', 'C19']),
+BY_FILE = [('crates/order_book/src/market.rs', ['C07', 'C10', 'C12', 'C13', 'C14']), ('crates/order_book/', ALL), ('crates/step_sim/src/agents', ['C09', 'C16', 'C17']),
+           ('crates/step_sim/src/market_env', ['C08', 'C09', 'C10', 'C11', 'C12', 'C13', 'C14', 'C16', 'C17']), ('crates/step_sim/src/', ['C05', 'C08', 'C09', 'C10', 'C11', 'C12', 'C13', 'C14', 'C16', 'C17', 'C18', 'C19']),
            ('rust/src', ['C18', 'C19']), ('crates/macros', ['C20'])]
 names = a.names or sorted(d for d in os.listdir(BD) if os.path.exists(os.path.join(BD, d, 'patch.diff')))
 def props_for(patch):
@@ -33,7 +34,7 @@ def one(name):
         env = dict(os.environ, REPO=wt, VERIF_OUT='/tmp/bsweep_out_' + name)
         for p in props:
             t = time.time()
-            r = subprocess.run(['/verif/check', p], capture_output=True, text=True, cwd='/verif', env=env)
+            r = subprocess.run([os.path.join(ROOT, 'check'), p], capture_output=True, text=True, cwd=ROOT, env=env)
             lines = [l for l in r.stdout.split('\n') if l.startswith(('VIOLATION', 'UNDECIDED', 'OK', 'refuted', 'bounded stand-in', 'undecided unit'))]
             out[p] = {'rc': r.returncode, 'lines': lines[:8], 's': round(time.time() - t, 1)}
     finally:
